@@ -29,5 +29,35 @@ TEXT = {
             "level_text": "Exploration over position x {shrink, same, fits exactly, needs 1..n evictions, too large}; the recorded size inside the entry is read through the hook so a missing re-accounting is seen at the mutate itself."},
 }
 
+_MEM_NOTE = ("Trusted base as for the history checks, plus Miri (Stacked Borrows, leak check, data-race detector) and AddressSanitizer/LeakSanitizer as memory-error monitors on the paths the workloads drive. "
+             "A clean run is 'no report on these executions', not memory safety.")
+
+TEXT.update({
+    "C06": {"technique": "runtime monitor: identity-level drop ledger (conservation after every event, exactly-once at the end) + LeakSanitizer/Miri leak and double-free detection",
+            "design_ref": "DESIGN.md section 5 C06", "level_note": _MEM_NOTE,
+            "level_text": "Exploration: unique object ids make 'which object was dropped' decidable; conservation is checked at every quiescent point, so a forgotten or doubly dropped object is reported at the faulty step with a replay."},
+    "C07": {"technique": "runtime monitor: structural invariant at a hook (walk mirror, node set == buckets, lookup identity) after every event + ASan/Miri memory-error detection",
+            "design_ref": "DESIGN.md sections 3.7 and 5 C07", "level_note": _MEM_NOTE + " 'Moved out of' for Copy link fields is not observable by any tool (DESIGN section 1).",
+            "level_text": "Exploration with reallocation (grow and shrink, explicit and automatic) at high frequency, constant hasher included, caches from empty to thousands of entries under ASan."},
+    "C12": {"technique": "exhaustive enumeration of next/next_back call strings per iterator kind and length, oracle from the observed pre-state; ASan + Miri on the same cases",
+            "design_ref": "DESIGN.md section 5 C12", "level_note": _MEM_NOTE,
+            "level_text": "Exploration, exhaustive within the stated bound (all call strings for lengths 0..=7 quick / 0..=10 thorough), random beyond it. The bound is what limits the claim."},
+    "C13": {"technique": "runtime monitor: capacity inequalities/transparency/growth oracle + allocator-failure injection into try_reserve",
+            "design_ref": "DESIGN.md section 5 C13", "level_note": _HIST_NOTE + " Allocation failure is injected by the harness' global allocator returning null for the k-th request of the call.",
+            "level_text": "Fault enumeration for the allocator-refusal clause (each allocation index of try_reserve), exploration for the rest; long churn restated as bounded runs."},
+    "C14": {"technique": "runtime monitor: clone equality + sibling-fingerprint independence after every event; ASan/Miri for shared ownership",
+            "design_ref": "DESIGN.md section 5 C14", "level_note": _MEM_NOTE,
+            "level_text": "Exploration over a state pool (any length, order, sizes, after reallocations and tombstones) with diverging operation sequences on up to three sibling caches."},
+    "C15": {"technique": "exhaustive enumeration of retain reject-subsets with predicate call log oracle; Miri on small n",
+            "design_ref": "DESIGN.md section 5 C15", "level_note": _MEM_NOTE,
+            "level_text": "Exploration, exhaustive within n <= 9 (quick) / 12 (thorough): every subset of entries to remove, including none, all, the ends, alternating."},
+    "C17": {"technique": "fault enumeration: mem::forget after every call-string prefix of every iterator kind; ledger + structure gate + further use; ASan (no LSan) and Miri (ignore leaks)",
+            "design_ref": "DESIGN.md section 5 C17", "level_note": _MEM_NOTE,
+            "level_text": "Fault enumeration: the 'fault' is the program leaking the iterator; all leak points for lengths 0..=6 (quick) / 0..=9 (thorough) are enumerated."},
+    "C20": {"technique": "runtime monitor: per-call Hash::hash counter vs bound 2 + departures (+ held on rebuild)",
+            "design_ref": "DESIGN.md section 5 C20", "level_note": _HIST_NOTE,
+            "level_text": "Exploration across cache sizes; a rehash-per-access or rescan shows as a count growing with the cache size."},
+})
+
 NOT_APPLICABLE = {p: "check under construction in this revision (see DESIGN.md section 5); will be claimed once its monitor exists" for p in
-                  ["C06", "C07", "C08", "C09", "C12", "C13", "C14", "C15", "C16", "C17", "C18", "C19", "C20"]}
+                  ["C08", "C09", "C16", "C18", "C19"]}
